@@ -82,15 +82,8 @@ class C09(CFGProp):
             if got != want:
                 ctx.fail(clause + ".lang", missing=sorted(want - got)[:3], extra=sorted(got - want)[:3],
                          result=x.describe())
-            for w in W3:
-                if drop_eps and not w:
-                    continue
-                rr = ctx.call(res.contains, list(w))
-                if not ctx.returns(rr, clause + ".contains", word=w):
-                    break
-                if rr.value is not (w in lang):
-                    ctx.fail(clause + ".contains", word=w, got=rr.value, want=w in lang, result=x.describe())
-                    break
+            ctx.batch_equal(clause + ".contains", lambda w: res.contains(list(w)),
+                            [w for w in W3 if w or not drop_eps], lambda w: w in lang)
             if not lang:
                 # empty language: any shape that generates nothing is accepted
                 continue
